@@ -50,7 +50,10 @@ REGNAMES = {64: REG64, 32: REG32, 16: REG16, 8: REG8}
 CC = [("o",), ("no",), ("b", "c", "nae"), ("ae", "nb", "nc"), ("e", "z"), ("ne", "nz"), ("be", "na"), ("a", "nbe"),
       ("s",), ("ns",), ("p", "pe"), ("np", "po"), ("l", "nge"), ("ge", "nl"), ("le", "ng"), ("g", "nle")]
 ALU = ["add", "or", "adc", "sbb", "and", "sub", "xor", "cmp"]                 # one-byte map rows 0..3, group 1
-GRP2 = [("rol",), ("ror",), ("rcl",), ("rcr",), ("shl", "sal"), ("shr",), None, ("sar",)]
+# group 2 /6: blank in the SDM's table A-6, but every x86 processor executes it as SAL/SHL (AMD64 APM vol. 3 lists
+# "SAL/SHL /6" in its group 2 table) and GNU objdump -- the reference decoder the property names -- prints shl:
+# accepted as an encoding of shl
+GRP2 = [("rol",), ("ror",), ("rcl",), ("rcr",), ("shl", "sal"), ("shr",), ("shl", "sal"), ("sar",)]
 GRP3 = [("test",), None, ("not",), ("neg",), ("mul",), ("imul",), ("div",), ("idiv",)]
 
 
@@ -325,8 +328,6 @@ def _decode(cur):
     if op in (0xC0, 0xC1, 0xD0, 0xD1, 0xD2, 0xD3):      # group 2
         size = 8 if op in (0xC0, 0xD0, 0xD2) else osz
         mod, reg, rm = _modrm(cur, r, x, bb, group=True)
-        if GRP2[reg] is None:
-            raise _Stop("group 2 /6 is not defined")
         cnt = ("imm", 8, cur.le(1)) if op < 0xD0 else (("one",) if op < 0xD2 else ("reg", 8, 1))
         return done(GRP2[reg], size, [E(size, rm), cnt])
     if op == 0xC2:
@@ -663,7 +664,7 @@ def selftest(repo=None, n_random=600, seed=0):
         ("480fbed3", "movsx rdx,bl"), ("660fbed3", "movsx dx,bl"), ("480fbfd3", "movsx rdx,bx"),
         ("0fb6c0", "movzx eax,al"), ("4863c8", "movsxd rcx,eax"), ("480fafc3", "imul rax,rbx"),
         ("486bc310", "imul rax,rbx,0x10"), ("49f7fb", "idiv r11"), ("48f7d8", "neg rax"), ("48f7d0", "not rax"),
-        ("48d1e0", "shl rax,1"), ("48d1e8", "shr rax,1"), ("48d3f8", "sar rax,cl"), ("48c1e005", "shl rax,0x5"),
+        ("48d1e0", "shl rax,1"), ("48d1e8", "shr rax,1"), ("48d3f8", "sar rax,cl"), ("48d3f0", "shl rax,cl"), ("48c1e005", "shl rax,0x5"),
         ("d2e4", "shl ah,cl"), ("40d2e4", "shl spl,cl"), ("41ffd2", "call r10"), ("ffe0", "jmp rax"),
         ("ff2425080000 00".replace(" ", ""), "jmp QWORD PTR [0x8]"), ("c3", "ret"), ("cd02", "int 0x2"),
         ("0f05", "syscall"), ("4898", "cdqe"), ("4899", "cqo"), ("6699", "cwd"), ("99", "cdq"),
@@ -677,7 +678,7 @@ def selftest(repo=None, n_random=600, seed=0):
         got = fmt(d)
         assert d.ok and d.length == len(H(hx)) and got == want, (hx, got, want)
         st["known"] += 1
-    for hx in ("48d3f0", "488dc0", "f6c8", "8fc8"):       # encodings the manual does not define
+    for hx in ("488dc0", "f6c8", "8fc8"):       # encodings the manual does not define
         assert not decode(list(H(hx))).ok, hx
     # (B)
     import os
